@@ -342,6 +342,9 @@ type builder struct {
 	tgt      int
 	tgtIface int
 	desc     []string
+	labels   []string // extra class labels
+	needle   string   // a name the diagnostic is expected to mention (counted, not judged)
+	solo     []soloPkg
 }
 
 func gomodText(mod string) string {
@@ -722,6 +725,119 @@ func selectionNode(sel string, iface string) any {
 	return nil
 }
 
+// ---- stand-alone contexts for the missing-interface class ------------------------------------------
+// The surrounding content is drawn independently of the usual context: 1-3 configured packages, each
+// with no type declarations at all, only non-interface types, an interface only in a _test.go file or
+// only behind a build tag, or one / several real interfaces (selected by list, by `all`, or not at all).
+
+type soloPkg struct {
+	path, dir, name, kind string
+	types                 []string // non-interface type names declared in the package
+}
+
+var soloFree = []string{"funcs-consts", "non-interface-types", "iface-in-test-file", "iface-behind-tag"}
+var soloWith = []string{"one-iface", "several-ifaces"}
+
+func prepareStandalone(t *rapid.T, b *builder, surround string) {
+	for k := range b.files {
+		if k != "go.mod" {
+			delete(b.files, k)
+		}
+	}
+	b.expect = map[string]bool{}
+	pk := NewM()
+	b.cfg.Set("packages", pk)
+	rootLayout := 0
+	if b.ctx.RootLayout >= 0 {
+		rootLayout = b.ctx.RootLayout
+	}
+	n := rapid.IntRange(1, 3).Draw(t, "solo-npkgs")
+	forced := rapid.IntRange(0, n-1).Draw(t, "solo-forced")
+	withIface := 0
+	for i := 0; i < n; i++ {
+		pool := soloFree
+		switch {
+		case surround == "mixed" && i == forced:
+			pool = soloWith
+		case surround == "mixed":
+			pool = append(append([]string{}, soloFree...), soloWith...)
+		}
+		kind := rapid.SampledFrom(pool).Draw(t, "solo-kind")
+		name := fmt.Sprintf("%s%d", rapid.SampledFrom([]string{"util", "model", "wire"}).Draw(t, "solo-name"), i)
+		dir := rapid.SampledFrom([]string{"", "", "internal/"}).Draw(t, "solo-prefix") + name
+		sp := soloPkg{path: b.ctx.Mod + "/" + dir, dir: dir, name: name, kind: kind}
+		head := "package " + name + "\n\n"
+		base := "const Limit = 10\n\nvar Default = map[string]int{}\n\nfunc Helper(n int) int { return n + Limit }\n"
+		var node any
+		switch kind {
+		case "funcs-consts":
+			b.files[dir+"/"+name+".go"] = head + base
+		case "non-interface-types":
+			b.files[dir+"/"+name+".go"] = head + base + "\ntype Settings struct{ N int }\n\ntype Handler func(int) string\n\ntype ID string\n\ntype Table map[string][]int\n"
+			sp.types = []string{"Settings", "Handler", "ID", "Table"}
+		case "iface-in-test-file":
+			b.files[dir+"/"+name+".go"] = head + base
+			b.files[dir+"/"+name+"_test.go"] = head + "type OnlyInTest interface{ T() }\n"
+		case "iface-behind-tag":
+			b.files[dir+"/"+name+".go"] = head + base
+			b.files[dir+"/"+name+"_tagged.go"] = "//go:build verifcustomtag\n\n" + head + "type TaggedOnly interface{ T() }\n"
+		default:
+			withIface++
+			names := []string{"Reader"}
+			if kind == "several-ifaces" {
+				names = []string{"Reader", "Store", "Clock"}[:rapid.IntRange(2, 3).Draw(t, "solo-nifaces")]
+			}
+			src := head + base
+			for _, in := range names {
+				src += "\ntype " + in + " interface {\n\tGet(key string) (int, error)\n}\n"
+			}
+			b.files[dir+"/"+name+".go"] = src
+			var sel []string
+			switch rapid.SampledFrom([]string{"listed", "all", "none"}).Draw(t, "solo-selection") {
+			case "listed":
+				ifs := NewM()
+				for _, in := range names {
+					ifs.Set(in, nil)
+				}
+				node, sel = NewM("interfaces", ifs), names
+			case "all":
+				node, sel = NewM("config", NewM("all", true)), names
+			}
+			for _, f := range layoutFiles(rootLayout, dir, sel) {
+				b.expect[f] = true
+			}
+		}
+		if kind != "one-iface" && kind != "several-ifaces" && rapid.IntRange(0, 3).Draw(t, "solo-all-on-free") == 3 {
+			node = NewM("config", NewM("all", true))
+		}
+		pk.Set(sp.path, node)
+		b.solo = append(b.solo, sp)
+	}
+	b.labels = append(b.labels, "solo-surround="+surround, fmt.Sprintf("solo-packages=%d", n), fmt.Sprintf("solo-packages-with-interfaces=%d", withIface))
+}
+
+func applyStandaloneMissing(t *rapid.T, b *builder, listing string) {
+	sp := b.solo[rapid.IntRange(0, len(b.solo)-1).Draw(t, "solo-listing-pkg")]
+	names := []string{"DoesNotExist", "UserStore", "Readr", "reader"}
+	name := rapid.SampledFrom(names).Draw(t, "solo-missing-name")
+	if len(sp.types) > 0 && rapid.IntRange(0, 2).Draw(t, "solo-non-interface-name") == 2 {
+		// a declared type that is not an interface: the listed INTERFACE does not exist either
+		name = rapid.SampledFrom(sp.types).Draw(t, "solo-type-name")
+		b.labels = append(b.labels, "solo-listed-name=non-interface-type")
+	}
+	var v any
+	switch listing {
+	case "config":
+		v = NewM("config", NewM("structname", "Fake"+title(name)))
+	case "configs":
+		v = NewM("configs", []any{NewM("structname", "One"+title(name)), NewM("structname", "Two"+title(name))})
+	}
+	b.cfg.Map("packages").Map(sp.path).Map("interfaces").Set(name, v)
+	b.needle = name
+	b.labels = append(b.labels, "solo-listing-pkg-kind="+sp.kind, "solo-listing="+listing)
+	b.note("package %s (%s) lists interface %s (%s form) which is not declared", sp.path, sp.kind, name, listing)
+}
+
 func buildCatalogue() []*entry {
 	var cat []*entry
 	add := func(e *entry) { cat = append(cat, e) }
@@ -742,6 +858,17 @@ func buildCatalogue() []*entry {
 			b.pkgNode(i).Map("interfaces").Set(name, v)
 			b.note("package %s lists interface %s which is not declared", b.pkgPath(i), name)
 		}})
+	}
+
+	// -- the same with independently drawn surroundings (packages without any interface declaration,
+	// with interfaces only in test / tagged files, mixed with packages that do generate mocks)
+	for _, surround := range []string{"all-interface-free", "mixed"} {
+		for _, listing := range []string{"bare", "config", "configs"} {
+			surround, listing := surround, listing
+			add(&entry{ID: "iface-missing-standalone/" + surround + "/" + listing, Level: "package", MustFail: true,
+				Prepare: func(t *rapid.T, b *builder) { prepareStandalone(t, b, surround) },
+				Apply:   func(t *rapid.T, b *builder) { applyStandaloneMissing(t, b, listing) }})
+		}
 	}
 
 	// -- packages that fail to load
@@ -1344,6 +1471,7 @@ type Case struct {
 	Fault      Variant           `json:"fault"`
 	Expect     []string          `json:"expect"`
 	Repeat     int               `json:"repeat,omitempty"`
+	Needle     string            `json:"needle,omitempty"`
 }
 
 func (b *builder) snapshot() (Variant, []string) {
@@ -1393,7 +1521,7 @@ func genFor(t *rapid.T, idx int) Case {
 	// A second fault is only added when the first one left the structure of the tree intact: the
 	// combinable faults address packages.<p>.config / .interfaces and would silently REBUILD a node
 	// that the first fault had replaced by a list (undoing the first fault).
-	structural := strings.HasPrefix(e.ID, "kind-list-for-map/") || strings.HasPrefix(e.ID, "kind-map-for-list/") || e.Level == "file"
+	structural := strings.HasPrefix(e.ID, "kind-list-for-map/") || strings.HasPrefix(e.ID, "kind-map-for-list/") || e.Level == "file" || strings.HasPrefix(e.ID, "iface-missing-standalone/")
 	if e.MustFail && !structural && rapid.IntRange(0, 4).Draw(t, "second-fault") == 4 {
 		var comb []*entry
 		for _, x := range catalogue {
@@ -1441,6 +1569,7 @@ func genFor(t *rapid.T, idx int) Case {
 	if ctx.RootFormatter != "" {
 		lab = append(lab, "formatter="+ctx.RootFormatter)
 	}
-	c.Labels = lab
+	c.Labels = append(lab, b.labels...)
+	c.Needle = b.needle
 	return c
 }
